@@ -38,6 +38,9 @@ import (
 // It returns the record and the domain it was found with (may not be
 // equal to the RFC5322.From domain).
 func FetchRecord(ctx context.Context, r Resolver, fromDomain string) (policyDomain string, rec *Record, err error) {
+	// The public suffix list lookup below is case-sensitive, domain names
+	// are not.
+	fromDomain = strings.ToLower(fromDomain)
 	policyDomain = fromDomain
 
 	// 1. Lookup using From Domain.
@@ -203,6 +206,11 @@ func EvaluateAlignment(fromDomain string, record *Record, results []authres.Resu
 }
 
 func isAligned(fromDomain, authDomain string, mode AlignmentMode) bool {
+	// The public suffix list lookups below are case-sensitive, domain names
+	// are not.
+	fromDomain = strings.ToLower(fromDomain)
+	authDomain = strings.ToLower(authDomain)
+
 	if mode == dmarc.AlignmentStrict {
 		return strings.EqualFold(fromDomain, authDomain)
 	}
